@@ -1,5 +1,6 @@
 import MJ.Proofs.Bal
 import MJ.Proofs.Nested
+import MJ.Proofs.BalGen
 /-!
 # C05 — scoped constructs restore scope, capture and escape state on every path
 
@@ -192,5 +193,50 @@ theorem earlyReturn_is_not_a_restore :
       (MJ.Nested.evalMacroEarlyReturn 7 4 500 ⟨100, none⟩ ⟨101, none⟩ body s).1 = .err ∧
       ¬ MJ.Nested.Same (MJ.Nested.evalMacroEarlyReturn 7 4 500 ⟨100, none⟩ ⟨101, none⟩ body s).2 s :=
   MJ.Nested.earlyReturn_does_not_restore
+
+/-! ## The code generator only produces balanced code -/
+
+open MJ.BalGen in
+/-- `compile_has_cert`: for EVERY statement tree the parser accepts (`ok false`: `break`/`continue`
+only where a `for` body encloses them, the `else` block of a loop belongs to the enclosing loop,
+macro and call bodies start afresh), the model of `compile_stmt` (`MJ/Model/BalGen.lean`: if / elif /
+else, for with and without else, recursive or not, with, set- and filter-blocks, autoescape, macros and
+call blocks, import / from-import, break and continue with `leave_scopes_of_innermost_loop`, any
+nesting, any amount of straight-line code in between) emits code together with a certificate that
+the verified checker accepts.  Block bodies are compiled by a sub-generator as templates of their
+own, so the statement covers every stream of a template. -/
+theorem compile_has_cert (s : Stmt) (h : ok false s = true) :
+    checkCert (codeOf (compileTemplate s)) (certOf (compileTemplate s) AbsState.init) = true :=
+  compileTemplate_checked s h
+
+open MJ.BalGen in
+/-- `compiled_code_balanced`: the generator model composed with the soundness of the checker — every
+run of the abstract machine on the code of every accepted statement tree, from every entry (pc 0,
+every macro body), never pops what it did not push (or a frame of the wrong kind) and leaves with
+exactly the entry depths. -/
+theorem compiled_code_balanced (s : Stmt) (h : ok false s = true) :
+    Balanced (codeOf (compileTemplate s)) :=
+  checkCert_sound _ _ (compile_has_cert s h)
+
+open MJ.BalGen in
+/-- a statement tree with everything in it: a recursive loop with an else block, inside it a `with`
+holding a set-block holding an autoescape block with a conditional `break` and a `continue`, a
+`loop(…)` recursion, a macro with a loop and a `break` of its own, a `from … import` -/
+def everything : Stmt :=
+  .seq (.simple [.other, .callFunction])
+    (.forElse true true 2 1
+      (.seq (.withS 2 (.capture (.autoEscape 1
+              (.seq (.ifS 3 .breakS) (.seq (.simple [.other, .fastRecurse]) (.ifElse 1 .continueS (.simple [.other]))))) 1))
+        (.seq (.macroS 1 (.forS true false 1 1 (.seq (.importS 1 4) (.ifS 1 .breakS))) 2 1)
+          (.simple [.callFunction, .other])))
+      (.simple [.other]))
+
+example : MJ.BalGen.ok false everything = true := by decide
+example : Balanced (MJ.BalGen.codeOf (MJ.BalGen.compileTemplate everything)) :=
+  compiled_code_balanced everything (by decide)
+/-- the `break` inside with > set-block > autoescape is compiled with its clean-up in front of the
+jump to the loop end: `PopAutoEscape, EndCapture, DiscardTop, PopFrame, Jump` -/
+example : (((MJ.BalGen.compileTemplate everything).map (·.1)).drop 17).take 5 =
+    [.popAutoEscape, .endCapture, .other, .popFrame, .jump 67] := by decide
 
 end MJ.C05
